@@ -15,7 +15,7 @@ from checks import metadata_common as mc
 THEOREMS = [
     "Props_C11.C11_block_write_read", "Props_C11.C11_block_size", "Props_C11.C11_block_read_write_read",
     "Props_C11.C11_write_blocks_read_blocks", "Props_C11.C11_read_blocks_write_blocks",
-    "Props_C11.C11_rules_refused", "Props_C11.C11_write_never_panics",
+    "Props_C11.C11_rules_refused", "Props_C11.C11_sizes_refused", "Props_C11.C11_write_never_panics",
     "Props_C11.C11_refuted", "Props_C11.C11_outside_known",
 ]
 FILES = ["Bytes.v", "Bytes_proofs.v", "Blocks.v", "BlockList.v", "Blocks_proofs.v", "BlockList_proofs.v", "Props_C11.v", "Pins.v"]
@@ -91,11 +91,11 @@ def run(chk):
         mc.vm_sample(chk, "c11", "\n".join(defs), expected,
                      ["FlacMeta.Bytes", "FlacMeta.Blocks", "FlacMeta.BlockList", "FlacMeta.Utf8"])
 
-    distinct = sum(int(s.get("distinct_sections", 0)) for s in stats.values())
+    distinct = max([int(s.get("distinct_sections", 0)) for s in stats.values()] or [0])
     chk.coverage.update({
         "evaluations": total_cases,
         "distinct_nontrivial": distinct,
-        "rule": "distinct metadata sections (FNV hash of the bytes) that were written by the implementation from a generated block list, or accepted by its reader, and taken through the full write/read/compare and size checks; every one has a STREAMINFO plus 0-5 further blocks",
+        "rule": "distinct metadata sections (FNV hash of the bytes) that were written by the implementation from a generated block list, or accepted by its reader, and taken through the full write/read/compare and size checks; every one has a STREAMINFO plus 0-5 further blocks (the larger count of the two build profiles)",
         "traces_validated_against_impl": total_cases,
         "disagreements_checked": bad_total,
         "error_variant_differences": soft_total,
